@@ -81,6 +81,14 @@ def family_pil(rng):
     aas = "ACDEFGHILMNQSTVWY"
     pil = []
     nfam = rng.randint(3, 6)
+    for f in range(rng.randint(1, 3)):
+        # indistinguishable isoforms: three or four proteins with exactly the same two or three peptides (all of them are superset
+        # candidates of each other, tied on the peptide count: their order in the group must not depend on set iteration)
+        twins = [f"T{f}I{i}" for i in range(rng.choice([3, 3, 4]))]
+        for _ in range(rng.randint(2, 3)):
+            ps = list(twins)
+            rng.shuffle(ps)
+            pil.append(["".join(rng.choice(aas) for _ in range(7)) + "TK", gens.fr(rng.choice([0.001, 0.004])), ps])
     for f in range(nfam):
         iso = [f"F{f}I{i}" for i in range(rng.choice([2, 3, 3, 4]))]
         rng.shuffle(iso)
@@ -88,6 +96,13 @@ def family_pil(rng):
         for j, (a, b) in enumerate(pairs):
             ps = [a, b] if rng.random() < 0.5 else [b, a]
             pil.append(["".join(rng.choice(aas) for _ in range(7)) + "K", gens.fr(rng.choice([0.001, 0.004, 0.02])), ps])
+        if len(iso) >= 3 and rng.random() < 0.5:
+            # indistinguishable isoforms: the same two or three peptides for all of them (ties on the peptide count among the
+            # superset candidates; their order must not depend on set iteration)
+            for _ in range(rng.randint(2, 3)):
+                ps = list(iso)
+                rng.shuffle(ps)
+                pil.append(["".join(rng.choice(aas) for _ in range(7)) + "R", gens.fr(rng.choice([0.001, 0.004])), ps])
         if len(iso) >= 3 and rng.random() < 0.5:
             pil.append(["".join(rng.choice(aas) for _ in range(7)) + "R", gens.fr(0.003), list(iso[:3])])
     for u in range(rng.randint(2, 5)):
@@ -103,7 +118,7 @@ def cli_hash_seeds(r, n_inputs, seeds):
     n_runs = 0
     env_base = dict(os.environ)
     for k in range(n_inputs):
-        if k % 3 == 0:
+        if k % 2 == 0:
             pil = family_pil(r.rng)
         else:
             pil = gen_pil(r.rng, max_prot=7, max_pep=12)
